@@ -36,11 +36,24 @@ type capturedRecord struct {
 var capMu sync.Mutex
 var captured []capturedRecord
 
-type captureWriter struct{ f plugintypes.AuditLogFormatter }
+// captureWriter behaves like the built-in writers in one respect: it delivers to the target it was initialised with
+// (SecAuditLog), and a writer without a target delivers nothing.
+type captureWriter struct {
+	f      plugintypes.AuditLogFormatter
+	target string
+}
 
-func (w *captureWriter) Init(c plugintypes.AuditLogConfig) error { w.f = c.Formatter; return nil }
-func (w *captureWriter) Close() error                            { return nil }
+const c19Target = "verif-capture-target"
+
+func (w *captureWriter) Init(c plugintypes.AuditLogConfig) error {
+	w.f, w.target = c.Formatter, c.Target
+	return nil
+}
+func (w *captureWriter) Close() error { return nil }
 func (w *captureWriter) Write(al plugintypes.AuditLog) error {
+	if w.target != c19Target {
+		return nil
+	}
 	rec := capturedRecord{TxID: al.Transaction().ID(), Parts: string(partsBytes(al.Parts()))}
 	for _, m := range al.Messages() {
 		if d := m.Data(); d != nil && !isNilPtr(d) {
@@ -323,7 +336,7 @@ func sortedInts(a []int) []int {
 func checkC19(c *C19Case) Result {
 	c19Setup()
 	res := Result{}
-	conf := c.conf("verifcapture", "")
+	conf := c.conf("verifcapture", c19Target)
 	var cbIDs []int
 	var cbMu sync.Mutex
 	w, err := coraza.NewWAF(coraza.NewWAFConfig().WithDirectives(conf).WithErrorCallback(func(mr types.MatchedRule) {
